@@ -318,7 +318,7 @@ class Analyzer(object):
             ei = ext_of(ki)
             if ei is not None and ei != ea:
                 self.report('K4:%s[%s]' % (b.a['name'], pretty(e.c[1])[:30]), e,
-                            '`%s`: local array `%s` is allocated with an extent that depends only on the %s count, but `%s` is %s'
+                            '`%s`: array `%s` has an extent that depends only on the %s count (by its allocation, or as its routine documents it), but `%s` is %s'
                             % (pretty(e)[:50], b.a['name'], {'M': 'row', 'N': 'column'}[ea], pretty(e.c[1])[:30], describe(ki)))
 
     def check_call(self, e, env):
